@@ -25,6 +25,12 @@ def code(i, src, **kw):
     return d
 
 
+def block(i, mode, acts, **kw):
+    d = {"id": i, "uses": "acts.core.block", "params": {"mode": mode, "acts": acts}}
+    d.update(kw)
+    return d
+
+
 def step(i, acts=None, branches=None, **kw):
     d = {"id": i}
     if acts:
@@ -107,4 +113,11 @@ def catalogue():
         branch("b1", [], **{"if": "c1"}),
         branch("b2", [step("s21", [irq("a2")])], **{"else": True}),
     ]), step("s2", [irq("a3")])]), {"c1": "$bool"})
+    C["tail_if"] = (wf("m", [step("s1", [irq("a1")]), step("s2", [irq("a2")], **{"if": "c1"})]), {"c1": "$bool"})
+    C["branch_tail_if"] = (wf("m", [step("s1", branches=[
+        branch("b1", [step("s11", [irq("a1")]), step("s12", [irq("a2")], **{"if": "c2"})], **{"if": "c1"}),
+        branch("b2", [step("s21", [irq("a3")])], **{"else": True}),
+    ]), step("s2", [irq("a4")])]), {"c1": "$bool", "c2": "$bool"})
+    C["par_block"] = (wf("m", [step("s1", [block("blk", "parallel", [irq("a1"), irq("a2"), irq("a3")])]), step("s2", [irq("a4")])]), {})
+    C["seq_block"] = (wf("m", [step("s1", [block("blk", "sequence", [irq("a1"), irq("a2")])])]), {})
     return C
